@@ -199,6 +199,17 @@ Theorem c12_category_sums_listed :
 Proof. exact category_totals_listed. Qed.
 Print Assumptions c12_category_sums_listed.
 
+(* and, for every category and subcategory separately, its total and count are the sums over the
+   merchants listed under it (no guard needed) *)
+Theorem c12_category_entries :
+  forall ms, Forall (fun c =>
+    c_total c = sumZ (map s_total (c_subs c)) /\ c_count c = sumZ (map s_count (c_subs c)) /\
+    Forall (fun s => s_total s = sumZ (map (fun p => j_ytd (snd p)) (s_merchants s)) /\
+                     s_count s = sumZ (map (fun p => j_count (snd p)) (s_merchants s))) (c_subs c))
+    (category_view ms).
+Proof. exact category_view_ok. Qed.
+Print Assumptions c12_category_entries.
+
 (* non-vacuity: distinct ids, three categories (one of them "Unknown", one empty), negative and zero totals *)
 Example c12_category_example :
   let ms := [ {| m_name := cps "O'Neil ""Q"""; m_cat := cps "Food"; m_sub := cps "Grocery"; m_total := 640; m_count := 2;
